@@ -356,3 +356,58 @@ def analyse(desc, model, heating=None, cooling=None, net_kw=None):
 def nontrivial_sig(desc):
     return (tuple((tuple(r), tuple(p)) for r, p in desc["reactions"]), tuple(desc.get("required", [])),
             repr(desc.get("ode_modifier")), tuple(desc.get("cooling", [])))
+
+
+# --------------------------------------------------------------------------
+# a tiny C preprocessor emulation (conditionals only) for text scans of rendered code
+
+def _pp_eval(cond: str, macros: dict) -> bool:
+    def sub(m):
+        name = m.group(0)
+        if name in ("defined",):
+            return name
+        v = macro_int(macros, name)
+        return str(v if v is not None else (1 if macros.get(name) not in (None,) and not re.fullmatch(r"\w+", macros.get(name, "")) and name in macros else 0))
+    c = re.sub(r"defined\s*\(?\s*(\w+)\s*\)?", lambda m: "1" if m.group(1) in macros else "0", cond)
+    # THERMAL-like macros defined by expressions
+    for _ in range(3):
+        c = re.sub(r"[A-Za-z_]\w*", lambda m: ("(" + macros[m.group(0)] + ")") if (m.group(0) in macros and not re.fullmatch(r"-?\d+", macros[m.group(0)])) else m.group(0), c)
+    c = re.sub(r"[A-Za-z_]\w*", lambda m: macros.get(m.group(0), "0") if re.fullmatch(r"-?\d+", macros.get(m.group(0), "0")) else "0", c)
+    c = c.replace("||", " or ").replace("&&", " and ").replace("!", " not ")
+    try:
+        return bool(eval(c, {"__builtins__": {}}, {}))
+    except Exception:
+        return True
+
+
+def preprocess(src: str, macros: dict) -> str:
+    """drop the inactive branches of #if/#ifdef/#else/#endif"""
+    out = []
+    stack = []  # (parent_active, taken, active)
+    active = True
+    for line in src.split("\n"):
+        s = line.strip()
+        if s.startswith("#if"):
+            if s.startswith("#ifdef"):
+                val = s.split()[1] in macros
+            elif s.startswith("#ifndef"):
+                val = s.split()[1] not in macros
+            else:
+                val = _pp_eval(s[3:].split("//")[0], macros)
+            stack.append((active, val))
+            active = active and val
+        elif s.startswith("#elif"):
+            parent, taken = stack[-1]
+            val = (not taken) and _pp_eval(s[5:].split("//")[0], macros)
+            stack[-1] = (parent, taken or val)
+            active = parent and val
+        elif s.startswith("#else"):
+            parent, taken = stack[-1]
+            active = parent and not taken
+            stack[-1] = (parent, True)
+        elif s.startswith("#endif"):
+            parent, _ = stack.pop()
+            active = parent
+        elif active:
+            out.append(line)
+    return "\n".join(out)
